@@ -229,6 +229,14 @@ func aged(p prog) prog {
 	}}
 }
 
+// agedBy: the same after secs seconds - an entry that is by now older than any refresh / expiry period a cache may have
+func agedBy(p prog, secs int64) prog {
+	return prog{fmt.Sprintf("after %d s: %s", secs, p.name), func(e *env, c *flowh.Caches, tid int, rec func(opRec)) {
+		sched.Sleep(secs * 1e9)
+		p.run(e, c, tid, rec)
+	}}
+}
+
 func dmpProg(file string) prog {
 	return prog{"dump+load", func(e *env, c *flowh.Caches, tid int, rec func(opRec)) {
 		p := filepath.Join(tmpDirGet(), file)
@@ -319,6 +327,10 @@ func scenarios() []scenario {
 	add("variable-length template: data|data|dump", true, annProg(0, 5, 1), datProg(0, 2), dmpProg("a.json"))
 	add("two-templates-in-one-set|data|data", false, annMultiProg(0, 1, 3, 4), datProg(0, 2), datProg(3, 2))
 	add("two-templates-in-one-set|dump|peer-get", true, annMultiProg(0, 2, 3, 3), dmpProg("a.json"), rpcProg(0, 2))
+	// an entry that has grown old (an hour, a day: e.g. loaded from the cache file after a restart) looked up while it is re-announced
+	add("hour-old entry: data|announce", false, agedBy(datProg(0, 2), 3600), agedBy(annProg(0, 1), 3600))
+	add("day-old entry: data|peer-get|announce", true, agedBy(datProg(0, 1), 90000), agedBy(rpcProg(0, 2), 90000), agedBy(annProg(0, 1, 2), 90000))
+	add("hour-old entry: data|announce|dump", false, agedBy(datProg(0, 2), 3600), agedBy(annProg(0, 1), 3600), agedBy(dmpProg("a.json"), 3600))
 	add("two-templates-in-one-set|dump|data", false, annMultiProg(0, 2, 3, 3), dmpProg("a.json"), datProg(0, 2))
 	return out
 }
@@ -740,7 +752,10 @@ func agingSpace(tier string) mck.Space {
 	ages := []int64{0, 1, 59, 60, 61, 299, 300, 301, 599, 600, 601, 1799, 1800, 1801, 3599, 3600, 3601, 7200, 86399, 86400, 86401, 7 * 86400, 30 * 86400, 400 * 86400}
 	orders := []string{"announce, wait, data", "announce v0, wait, announce, wait, data", "announce, dump, wait, load, data", "announce, wait, peer lookup", "announce, wait, dump, load, data",
 		// house-keeping that runs when OTHER templates arrive (a sweep on insert) must not take this one away
-		"announce, wait, 96 other exporters announce, data"}
+		"announce, wait, 96 other exporters announce, data",
+		// the clock at the restart is BEHIND the clock at the dump (boot before time synchronisation, a step backwards,
+		// a resumed virtual machine): what the file says was stored "in the future" is still what was stored
+		"announce, dump, the clock steps back, load, data"}
 	vers := versions()
 	dims := mck.Radix{2, uint64(len(ages)), uint64(len(orders)), uint64(len(vers))}
 	return mck.FuncSpace{N: dims.Size(), F: func(idx uint64, c *mck.Ctx) {
@@ -818,6 +833,13 @@ func agingSpace(tier string) mck.Space {
 			dump()
 			load()
 			data()
+		case 6:
+			ann(v)
+			dump()
+			venv.AdvanceReal(-age)
+			load()
+			data()
+			venv.AdvanceReal(age)
 		case 5:
 			ann(v)
 			venv.AdvanceReal(age)
